@@ -204,7 +204,7 @@ def layout(m):
     return got == len(m)
 
 
-def roundtrip(obj, fmt):
+def roundtrip(obj, fmt, cistrans=True):
     from chython.files import SDFRead, SDFWrite, ESDFWrite, RDFRead, RDFWrite, ERDFWrite, MRVRead, MRVWrite
     buf = io.StringIO()
     W = {'sdf': SDFWrite, 'esdf': ESDFWrite, 'rdf': RDFWrite, 'erdf': ERDFWrite, 'mrv': MRVWrite}[fmt]
@@ -213,10 +213,10 @@ def roundtrip(obj, fmt):
     w.close()
     text = buf.getvalue()
     if fmt == 'mrv':
-        rd = MRVRead(io.BytesIO(text if isinstance(text, bytes) else text.encode()), calc_cis_trans=True)
+        rd = MRVRead(io.BytesIO(text if isinstance(text, bytes) else text.encode()), calc_cis_trans=cistrans)
     else:
         Rd = SDFRead if fmt in ('sdf', 'esdf') else RDFRead
-        rd = Rd(io.StringIO(text), calc_cis_trans=True)
+        rd = Rd(io.StringIO(text), calc_cis_trans=cistrans)
     back = next(iter(rd), None)
     return back
 
@@ -237,6 +237,8 @@ def observe(case):
             if any(a.atomic_number == 1 and any(m._atoms[k]._stereo is not None for k in m._bonds[n]) for n, a in m._atoms.items()):
                 return {'skip': 'explicit-hydrogen-on-stereocentre'}      # the one recorded writer / reader asymmetry
             m.name = case.get('name', '')
+            if case.get('bignum'):     # atom numbers beyond the three-character column of V2000: the writer must refuse or keep them
+                m.remap({n: n + 990 + 7 * k for k, n in enumerate(list(m._atoms))})
             mols.append(m)
     except Exception as e:
         return {'skip': type(e).__name__}
@@ -246,12 +248,20 @@ def observe(case):
             obj = mols[0]
             obj.meta.update(meta)
             rec['w'] = [[molproj(obj)], [], []]
-            back = roundtrip(obj, case['fmt'])
+            try:
+                back = roundtrip(obj, case['fmt'], case.get('cistrans', True))
+            except ValueError:
+                if case.get('bignum'):
+                    return {'skip': 'refused-large-atom-number'}
+                raise
             if back is None or not hasattr(back, '_atoms'):
                 rec['exc'] = 'nothing-read-back'
             else:
                 rec['b'] = [[molproj(back)], [], []]
                 rec['bmeta'] = norm_meta(back.meta)
+                if not case.get('cistrans', True):    # the default reader does not take double-bond configuration from the drawing
+                    rec['w'][0][0]['ct'] = []
+                    rec['b'][0][0]['ct'] = []
         else:
             r, a, p = case['shape']
             obj = ReactionContainer(mols[:r], mols[r + a:], mols[r:r + a], meta=dict(meta), name=case.get('name', ''))
@@ -431,6 +441,18 @@ def run(ck):
                     for _ in range(rnd.randint(0, 3))}
             cases.append({'key': f'mol:{fmt}:{s}', 'kind': 'mol', 'fmt': fmt, 'mols': [s], 'coords': k % 4 != 3, 'thiele': k % 5 == 0, 'meta': meta,
                           'name': rand_text(rnd, rnd.randint(0, 40), alpha) if rnd.random() < .7 else '', 'rs': rnd.randrange(1 << 30)})
+    # the default reader (no configuration of double bonds from the drawing): tetrahedral centres, also those that are stereogenic
+    # only once other centres are labelled (pseudo-asymmetric chains, ring cis/trans pairs, bridged rings)
+    dependent = ['C[C@H](O)[C@H](O)[C@@H](C)O', 'C[C@H](O)[C@@H](O)[C@@H](C)O', 'C[C@H]1CC[C@@H](O)CC1', 'C[C@H]1CC[C@H](O)CC1', 'O[C@H]1C[C@@H](O)C1', 'C[C@H]1C[C@@H](C)C[C@H](C)C1',
+                 'O[C@@H]1[C@H](O)[C@@H](O)[C@H](O)[C@@H](O)[C@H]1O', 'C[C@H](F)[C@@H](Cl)[C@H](C)F', 'C[C@@H]1CC[C@]2(CC1)CCO2', 'N[C@@H](C)C(=O)O', 'C[C@H](O)[C@@H](N)C(=O)O']
+    for k, s in enumerate(dependent + chy.pick([x for x in corp if '@' in x], 20 if ck.quick else 400, ck.seed, 7)):
+        for fmt in fmts:
+            cases.append({'key': f'mol:{fmt}:{s}:default-reader', 'kind': 'mol', 'fmt': fmt, 'mols': [s], 'coords': True, 'thiele': False, 'meta': {}, 'name': '', 'cistrans': False,
+                          'rs': rnd.randrange(1 << 30)})
+    for k, s in enumerate(['CCO', 'CC(=O)N', 'c1ccccc1O', 'C[C@H](N)O', '[Na+].[Cl-]', 'CC(C)(C)O']):
+        for fmt in fmts:
+            cases.append({'key': f'mol:{fmt}:{s}:large-numbers', 'kind': 'mol', 'fmt': fmt, 'mols': [s], 'coords': k % 2 == 0, 'thiele': False, 'meta': {}, 'name': '', 'bignum': True,
+                          'rs': rnd.randrange(1 << 30)})
     shapes = [(1, 0, 1), (2, 1, 1), (1, 0, 0), (0, 0, 1), (0, 1, 0), (3, 3, 3), (1, 2, 0), (0, 2, 2), (2, 0, 2)]
     for k in range(40 if ck.quick else 600):
         shape = rnd.choice(shapes)
